@@ -463,12 +463,39 @@ func (w *World) runSubscriptionsV8(filters []Filt) {
 		marker := len(w.Chain) - 1
 		want := emsString(naive(w.Chain, f, from, marker))
 		got, ok := "", false
+		// The block under test is announced ONCE (announcing an older head again would move the handler's
+		// next-block pointer back: `nextBlock = head.Number + 1`, and the marker would be notified twice);
+		// the marker head may be repeated: its range [marker+1, marker] is empty the second time.
+		ss.heads.Send(w.Bundles[marker-1].Block)
+		time.Sleep(2 * time.Millisecond)
 		deadline := time.Now().Add(patience())
 		for time.Now().Before(deadline) && !ok {
-			ss.heads.Send(w.Bundles[marker-1].Block)
-			time.Sleep(2 * time.Millisecond)
 			ss.heads.Send(w.Bundles[marker].Block)
-			time.Sleep(5 * time.Millisecond)
+			for i := 0; i < 200 && !ok; i++ {
+				time.Sleep(2 * time.Millisecond)
+				var ems []Em
+				for _, m := range conn.snapshot(0) {
+					b := int(m.Block)
+					t := -1
+					if b < len(w.Bundles) {
+						for ti, rc := range w.Bundles[b].Block.Receipts {
+							if rc.TransactionHash.String() == m.TxHash {
+								t = ti
+							}
+						}
+					}
+					ems = append(ems, Em{b, t, m.EvIdx})
+					if b == marker {
+						ok = true
+					}
+				}
+				got = emsString(ems)
+			}
+		}
+		if ok {
+			// everything of this announcement has been written when the handler is idle again: a grace
+			// period, then the final reading (a duplicate would arrive right behind the first copy)
+			time.Sleep(10 * time.Millisecond)
 			var ems []Em
 			for _, m := range conn.snapshot(0) {
 				b := int(m.Block)
@@ -481,9 +508,6 @@ func (w *World) runSubscriptionsV8(filters []Filt) {
 					}
 				}
 				ems = append(ems, Em{b, t, m.EvIdx})
-				if b == marker {
-					ok = true
-				}
 			}
 			got = emsString(ems)
 		}
